@@ -33,7 +33,7 @@ SHARD = 40
 def generate(rng, tier):
     quick = tier != 'thorough'
     cases = []
-    for _ in range(60 if quick else 1500):
+    for _ in range(60 if quick else 1000):
         cases.append(dict(kind='conn', ops=NC.gen_conn_ops(rng, rng.choice([3, 8, 15, 30]))))
     # boundary stream for TcpConnection: piece lengths around max_send, accepts around the offered length
     for m in range(1, 10):
@@ -46,9 +46,9 @@ def generate(rng, tier):
                 data = NC.rand_bytes(rng, ln)
                 cases.append(dict(kind='conn', ops=[['q', data], ['q', b'xy'], ['f', m, k], ['f', m, 'block'], ['f', m, 100000],
                                                     ['f', m, 100000], ['f', m, 100000]]))
-    n = 170 if quick else 6000
+    n = 170 if quick else 3000
     for i in range(n):
-        c = NC.gen_relay(rng, profile='relay', n_events=rng.choice([10, 16, 24, 32]) if quick else rng.choice([20, 40, 80, 120]))
+        c = NC.gen_relay(rng, profile='relay', n_events=rng.choice([10, 16, 24, 32]) if quick else rng.choice([20, 40, 60, 80]))
         cases.append(c)
     return cases
 
